@@ -103,6 +103,13 @@ def run_wb(case):
     fails, oc, ex = [], set(), 0
     try:
         model = X.model_from_dict(spec)
+        # compile twice from the same model object and judge the second function: whatever compile() consumes or
+        # leaves behind on the model must not show (the first function is called once in between)
+        first = model.compile(in_ids, out_ids)
+        try:
+            first(*[to_lib(p[0][:len(s[3])] if s[2] == 'range' else p[0]) for s, p in zip(sel, [RPOOL if s[2] == 'range' else POOL for s in sel])])
+        except Exception:
+            pass
         func = model.compile(in_ids, out_ids)
     except Exception as e:
         return result(1, ['compile-escape'], [Fail('compile-escape', got='%s:%s' % (exc_name(e), str(e)[:80]), exp='a function', **desc)])
